@@ -207,6 +207,37 @@ def rule_cbzero(ctx, rep, rule="R-CBZERO"):
             sites = {}
             for p in A.paths[key]:
                 for e in p.events:
+                    if e["kind"] == "CALL" and isinstance(e["detail"], dict) and e["detail"].get("outcome") in (None, "unw"):
+                        # the closure may be invoked inside a private helper it is handed to (`with_transient(owner, f)`):
+                        # state at that moment = state before the call + the helper's own state when it calls the closure
+                        ck = e["detail"].get("callee")
+                        cb = F.body(ck) if ck else None
+                        if cb is None or is_api(F, cb) or cb["kind"] == "Closure":
+                            continue
+                        t = b["blocks"][e["bb"]]["term"]
+                        r = t.get("resolved")
+                        gargs = r["args"] if isinstance(r, dict) else (t.get("callee_args") or [])
+                        own_callables = set(F.ty(q["self"])["name"] for q in b.get("preds", []) if q.get("kind") == "trait" and q.get("trait", "").startswith("core::ops::function::Fn") and F.ty(q["self"])["k"] == "param")
+                        if not any("t" in a and F.ty(F.strip_refs(a["t"]))["k"] == "param" and F.ty(F.strip_refs(a["t"]))["name"] in own_callables for a in gargs):
+                            continue
+                        try:
+                            cps = E.local_paths(ck, gargs)
+                        except Exception:
+                            continue
+                        before = e["run"]
+                        for x, y in zip(range(len(VK)), e["vec"]):
+                            pass
+                        base_c = dcount(e["run"]) - dcount(e["vec"])
+                        base_o = vget(e["run"], "own") - vget(e["vec"], "own")
+                        for q in cps:
+                            for e2 in q.events:
+                                if e2["kind"] != "PCALL":
+                                    continue
+                                st = sites.setdefault(e["bb"], {"ok": True, "p": None, "e": e})
+                                if (base_c + dcount(e2["run"]) != 0 or base_o + vget(e2["run"], "own") != 0) and st["ok"]:
+                                    st["ok"] = False
+                                    st["p"] = p
+                        continue
                     if e["kind"] != "PCALL":
                         continue
                     run = e["run"]
